@@ -362,7 +362,9 @@ Qed.
 Section GroupProof.
   Variable apply : sym -> value -> value -> option value.
   Variable gs : list N.
-  Hypothesis Htab : forall o, prec_of (preds gs) o = spec_prec o.
+  Hypothesis Hiso : forall o o',
+      (prec_of (preds gs) o <? prec_of (preds gs) o') = (spec_prec o <? spec_prec o').
+  Hypothesis Hpos : forall o, (1 <=? prec_of (preds gs) o) = (1 <=? spec_prec o).
 
   Notation lap := (lift_ap apply).
   Notation ev := (eval_tree apply).
@@ -398,8 +400,8 @@ Section GroupProof.
   Lemma join_climb_spec d0 dr :
       join_climb apply (prec_of (preds gs)) d0 dr = join_climb apply spec_prec d0 dr.
   Proof.
-    unfold join_climb. rewrite (climb_ext lap (prec_of (preds gs)) spec_prec); [reflexivity|].
-    apply Forall_forall. intros x _. apply Htab.
+    unfold join_climb. rewrite (climb_iso lap (prec_of (preds gs)) spec_prec Hiso _ _ 1 1); [reflexivity|].
+    apply Forall_forall. intros x _. apply Hpos.
   Qed.
 
   Lemma poisoned_climb d0 dr :
@@ -524,17 +526,37 @@ End GroupProof.
 
 (* ---- the table obligation ---- *)
 
+(* the thresholds must induce the textbook ORDER of levels on the operators
+   (same pairs tighter / equal / looser) and fold every one of them; the level
+   numbers themselves are free, so splitting or adding groups that do not
+   separate or reorder these operators keeps the obligation true *)
 Definition table_ok (gs : list N) : bool :=
-  forallb (fun o => Nat.eqb (prec_of (preds gs) o) (spec_prec o)) all_syms.
+  forallb (fun o =>
+             forallb (fun o' => Bool.eqb (prec_of (preds gs) o <? prec_of (preds gs) o')
+                                         (spec_prec o <? spec_prec o')) all_syms) all_syms &&
+  forallb (fun o => 1 <=? prec_of (preds gs) o) all_syms.
 
 (* value nodes are never executed: every key a value node can carry is below every threshold *)
 Definition value_keys_ok (gs : list N) : bool :=
   forallb (fun k => forallb (fun g => (k <? g)%N) gs) value_keys.
 
-Lemma table_ok_all gs : table_ok gs = true -> forall o, prec_of (preds gs) o = spec_prec o.
+Lemma in_all_syms o : In o all_syms.
+Proof. destruct o; cbn; tauto. Qed.
+
+Lemma table_ok_iso gs : table_ok gs = true -> forall o o',
+    (prec_of (preds gs) o <? prec_of (preds gs) o') = (spec_prec o <? spec_prec o').
 Proof.
-  intros H o. unfold table_ok in H. rewrite forallb_forall in H.
-  apply Nat.eqb_eq. apply H. destruct o; cbn; tauto.
+  intros H o o'. unfold table_ok in H. apply andb_true_iff in H as [H _].
+  rewrite forallb_forall in H. specialize (H o (in_all_syms o)).
+  rewrite forallb_forall in H. specialize (H o' (in_all_syms o')).
+  apply Bool.eqb_prop in H. exact H.
+Qed.
+
+Lemma table_ok_pos gs : table_ok gs = true -> forall o,
+    (1 <=? prec_of (preds gs) o) = (1 <=? spec_prec o).
+Proof.
+  intros H o. unfold table_ok in H. apply andb_true_iff in H as [_ H].
+  rewrite forallb_forall in H. rewrite (H o (in_all_syms o)). destruct o; reflexivity.
 Qed.
 
 (* HEADLINE (generic): for every operator semantics and every threshold list
@@ -544,7 +566,7 @@ Theorem flat_eq_tree apply gs :
   table_ok gs = true ->
   forall ts tr, parse_expr ts = Some tr ->
                 eval_group apply gs ts = to_outcome (eval_top apply tr).
-Proof. intros H ts tr. apply group_eq_tree. apply table_ok_all. exact H. Qed.
+Proof. intros H ts tr. apply group_eq_tree; [apply table_ok_iso|apply table_ok_pos]; exact H. Qed.
 
 Lemma table_ok_now : table_ok groups = true.
 Proof. vm_compute. reflexivity. Qed.
@@ -552,6 +574,6 @@ Proof. vm_compute. reflexivity. Qed.
 Lemma value_keys_ok_now : value_keys_ok groups = true.
 Proof. vm_compute. reflexivity. Qed.
 
-Theorem eval_expr_eq_tree ts tr :
-  parse_expr ts = Some tr -> eval_expr ts = to_outcome (eval_top apply_go tr).
+Theorem eval_expr_eq_tree orc ts tr :
+  parse_expr ts = Some tr -> eval_expr orc ts = to_outcome (eval_top (apply_go orc) tr).
 Proof. apply flat_eq_tree. exact table_ok_now. Qed.
